@@ -358,3 +358,28 @@ def self_referential(rng, ver):
         except Exception:  # noqa: BLE001
             pass
     return out
+
+
+def digit_payload_cases(rng):
+    """corpus/TR31/digit_payload.jsonl (built by harness/tools/build_digit_payload.py with `cryptography` only): version A / C blocks whose
+    encrypted key data and MAC contain no hex letter. Each is wrapped under the recorded masking pad (the result must be the
+    recorded block), unwrapped, and offered with its hex section in lower case (no letters: the same string)."""
+    import json
+    import os
+    from core import Case
+    path = os.path.join(os.path.dirname(os.path.dirname(os.path.dirname(os.path.abspath(__file__)))), "corpus", "TR31", "digit_payload.jsonl")
+    if not os.path.exists(path):
+        return
+    for line in open(path):
+        e = json.loads(line)
+        kbpk, key, pad = bytes.fromhex(e["kbpk"]), bytes.fromhex(e["key"]), bytes.fromhex(e["pad"])
+        c = Case(f"{e['ver']}:digits-only-binary-section", {"key": len(key)})
+        w = c.call("tr31.wrap", kbpk, e["header"], key, 0, op="tr31.wrap", stream="tr31", with_entropy=True, entropy=pad + bytes(16))
+        if not w.ok:
+            c.fail("wrap raised " + w.err)
+        elif w.value != e["block"]:
+            c.fail(f"wrap under the recorded pad gives {w.value}, an independent implementation {e['block']}")
+        u = unwrap_case(c, kbpk, e["block"])
+        if not u.ok or u.value[1] != key:
+            c.fail(f"a genuine block whose binary section holds decimal digits only is not unwrapped to its key: {u.exc!r}" if not u.ok else "unwrapped to another key")
+        yield c
